@@ -238,7 +238,7 @@ class Machine:
                 obj = self.eval(fn, n['b'], env, depth)
             else:
                 lv = self.lvalue(fn, n['b'], env, depth)
-                obj = ('lv',) + tuple(lv) if lv else SYM
+                obj = ('lv',) + tuple(x for x in lv if not isinstance(x, dict)) if lv else SYM
             return ('field', obj, n.get('rec'), n['f'])
         if k == 'un' and n.get('op') == '*':
             return ('mem', self.eval(fn, n['e'], env, depth), n)
@@ -504,6 +504,9 @@ class Machine:
                 if other == 0:
                     return int(op == '==')
                 return SYM
+            if isinstance(a, tuple) and isinstance(b, tuple):
+                # two object designators: identity
+                return int((a == b) if op == '==' else (a != b))
             if isinstance(a, tuple) or isinstance(b, tuple):
                 for x, y in ((a, b), (b, a)):
                     if isinstance(x, tuple) and y == 0:
